@@ -53,6 +53,7 @@ type c18Scenario struct {
 	Twin    bool      `json:"two_instances_from_one_slice"`
 	DefTwin bool      `json:"two_default_constructed_instances"`
 	APIHdr  bool      `json:"api_has_default_header,omitempty"`
+	ShareTr bool      `json:"clients_share_one_transport_object,omitempty"`
 	Steps   []c18Step `json:"steps"`
 
 	h      *Hist
@@ -85,6 +86,9 @@ func genC18(t *simrt.Tape, tier string) Scenario {
 	// instance registers must never show up in the other
 	sc.Twin = t.Bool(1, 4)
 	sc.APIHdr = t.Bool(1, 2)
+	// different http.Client objects built on ONE transport object (a shared connection pool): handing a new client
+	// over still puts the chain in front of it
+	sc.ShareTr = sc.NCli >= 2 && t.Bool(1, 3)
 	if sc.Twin && t.Bool(1, 3) {
 		// both objects come from NewSimpleHTTP() (own http.Client each, default transport = the stub)
 		sc.DefTwin = true
@@ -243,6 +247,12 @@ func (sc *c18Scenario) Run(s *simrt.Sim) {
 	clients := make([]*http.Client, sc.NCli)
 	for k := range clients {
 		clients[k] = &http.Client{Transport: &c18Stub{id: k, log: &log, depth: &depth, seen: &seen, fail: &netErr, redir: &redirects, tagged: &tagged}}
+	}
+	if sc.ShareTr {
+		for k := 1; k < len(clients); k++ {
+			clients[k] = &http.Client{Transport: clients[0].Transport}
+		}
+		sc.probes["clients-sharing-one-transport"]++
 	}
 	if sc.NilTr {
 		saved := http.DefaultTransport
